@@ -1037,6 +1037,19 @@ func (c *EvalCtx) call(e *ECall) Value {
 			mask = uint8(k)
 		}
 		return Bool(c.e.taintBits(c.st, c.eval(arg(0)), 0)&mask != 0)
+	case "ufb", "ufi":
+		// uninterpreted function of a byte sequence: names "the" result of a deterministic,
+		// read-only computation on those bytes (used in axiom clauses)
+		nm, ok := c.eval(arg(0)).(StrV)
+		if !ok || nm.Lit == nil {
+			return c.fail("ufb/ufi: first argument must be a string literal")
+		}
+		srt := SBool
+		pre := "tq_ufs_bool_"
+		if e.Fun == "ufi" {
+			srt, pre = SInt, "tq_ufs_int_"
+		}
+		return App(pre+sanitize(*nm.Lit), srt, c.term(arg(1)))
 	case "maytaint":
 		// as a goal nothing is to be shown: declaring a possible label is the safe direction
 		return TTrue
